@@ -110,12 +110,12 @@ Definition wf (c : case) : bool :=
   | IMode s, OMode _ f => forallb (fun mr => fst mr <? 4096) f
                           && (match f with [] => true | _ => referee_domain s end)
   | IList t init items lines, OList _ _ =>
-    forallb no_nl lines && negb (snd (run_list t [] init lines))
+    tree_ok t && forallb no_nl lines && negb (snd (run_list t [] init lines))
     && match items with
        | Some its => forallb item_ok its && list_beq beq (map item_render its) lines
        | None => true
        end
-  | IProc t pre lines, OProc _ _ _ => forallb no_nl lines && negb (snd (run_list t (pre_list pre) [] lines))
+  | IProc t pre lines, OProc _ _ _ => tree_ok t && forallb no_nl lines && negb (snd (run_list t (pre_list pre) [] lines))
   | IRecipe env cmd items lines, ORecipe _ _ _ =>
     forallb no_nl lines && env_ok env && recipe_atoms_ok cmd lines && no_uni (rc_atoms cmd)
     && match items with
